@@ -1062,4 +1062,20 @@ theorem getAll_spec {H : Bytes → Nat} {s : State} (a : Addr) (h : Inv H s) (ho
         exact ⟨o, hc⟩)]
       exact hv
 
+/-! ### the script that pays to an address has that address's index key -/
+
+theorem scriptForm_script (a : Addr) (hv : a.idx < 5) (hl : a.payload.length = if a.idx < 3 then 20 else 32) :
+    scriptForm a.script = some (a.idx, a.payload) := by
+  obtain ⟨idx, p⟩ := a
+  simp only at hv hl
+  have : idx = 0 ∨ idx = 1 ∨ idx = 2 ∨ idx = 3 ∨ idx = 4 := by omega
+  rcases this with h | h | h | h | h <;> subst h <;> simp at hl <;>
+    simp [scriptForm, Addr.script, byteAt, hl, List.getD_eq_getElem?_getD] <;>
+    (try exact List.take_of_length_le (by omega))
+
+theorem script2idx_script (H : Bytes → Nat) (a : Addr) (hv : a.idx < 5)
+    (hl : a.payload.length = if a.idx < 3 then 20 else 32) :
+    script2idx H a.script = some (a.idx, H a.payload) := by
+  simp [script2idx, scriptForm_script a hv hl]
+
 end GocoinV.Proofs.C17
